@@ -45,6 +45,7 @@ theorem ofBe_append (a b : Bytes) : ofBe (a ++ b) = ofBe a * 256 ^ b.length + of
       rw [List.foldl_append] at ih
       rw [ih, Nat.pow_succ]
       rw [Nat.add_mul, Nat.mul_assoc, Nat.add_assoc]
+      simp [List.foldl_append]
 
 theorem ofBe_singleton (x : Nat) : ofBe [x] = x := by simp [ofBe]
 
@@ -67,7 +68,7 @@ theorem ofBe_lt (bs : Bytes) (h : ∀ b ∈ bs, b < 256) : ofBe bs < 256 ^ bs.le
   | hnil => simp [ofBe]
   | hsnoc bs x ih =>
       rw [ofBe_append, ofBe_singleton]
-      simp only [List.length_append, List.length_singleton, Nat.pow_one, Nat.pow_succ]
+      simp only [List.length_append, List.length_singleton, Nat.pow_succ]
       have hx : x < 256 := h x (by simp)
       have := ih (fun b hb => h b (by simp [hb]))
       have : (ofBe bs + 1) * 256 ≤ 256 ^ bs.length * 256 := Nat.mul_le_mul_right _ this
@@ -89,5 +90,432 @@ theorem beN_ofBe (bs : Bytes) (h : ∀ b ∈ bs, b < 256) : beN bs.length (ofBe 
 theorem beN_ofBe' (k : Nat) (bs : Bytes) (hk : bs.length = k) (h : ∀ b ∈ bs, b < 256) :
     beN k (ofBe bs) = bs := by
   subst hk; exact beN_ofBe bs h
+
+/-! ## chunked values -/
+
+def AllB (bs : Bytes) : Prop := ∀ b ∈ bs, b < 256
+
+theorem allB_of_isBytes {bs : Bytes} (h : Rbgp.Api.isBytes bs = true) : AllB bs := by
+  intro b hb
+  simp only [Rbgp.Api.isBytes, List.all_eq_true, decide_eq_true_eq] at h
+  exact h b hb
+
+theorem AllB.take {bs : Bytes} (h : AllB bs) (n : Nat) : AllB (bs.take n) :=
+  fun b hb => h b (List.mem_of_mem_take hb)
+theorem AllB.drop {bs : Bytes} (h : AllB bs) (n : Nat) : AllB (bs.drop n) :=
+  fun b hb => h b (List.mem_of_mem_drop hb)
+theorem AllB.tail {x : Nat} {bs : Bytes} (h : AllB (x :: bs)) : AllB bs :=
+  fun b hb => h b (List.mem_cons_of_mem _ hb)
+theorem AllB.head {x : Nat} {bs : Bytes} (h : AllB (x :: bs)) : x < 256 := h x (by simp)
+theorem AllB.append {a b : Bytes} (ha : AllB a) (hb : AllB b) : AllB (a ++ b) := by
+  intro x hx
+  rcases List.mem_append.mp hx with h | h
+  · exact ha x h
+  · exact hb x h
+
+theorem exists_four {bs : Bytes} (h : 4 ≤ bs.length) : ∃ a b c d rest, bs = a :: b :: c :: d :: rest := by
+  match bs, h with
+  | a :: b :: c :: d :: rest, _ => exact ⟨a, b, c, d, rest, rfl⟩
+
+theorem u32s_length (n : Nat) (bs : Bytes) (h : n * 4 ≤ bs.length) : (u32s n bs).length = n := by
+  induction n generalizing bs with
+  | zero => simp [u32s]
+  | succ n ih =>
+      obtain ⟨a, b, c, d, rest, rfl⟩ := exists_four (bs := bs) (by omega)
+      simp only [u32s, List.length_cons]
+      rw [ih rest (by simp only [List.length_cons] at h; omega)]
+
+theorem u32s_flatMap (n : Nat) (bs : Bytes) (h : n * 4 ≤ bs.length) (hb : AllB bs) :
+    (u32s n bs).flatMap (beN 4) = bs.take (n * 4) := by
+  induction n generalizing bs with
+  | zero => simp [u32s]
+  | succ n ih =>
+      obtain ⟨a, b, c, d, rest, rfl⟩ := exists_four (bs := bs) (by omega)
+      have hr : AllB rest := hb.tail.tail.tail.tail
+      have h4 : beN 4 (ofBe [a, b, c, d]) = [a, b, c, d] :=
+        beN_ofBe' 4 [a, b, c, d] rfl (fun x hx => hb x (by
+          simp only [List.mem_cons, List.not_mem_nil, or_false] at hx
+          rcases hx with h | h | h | h <;> simp [h]))
+      simp only [u32s, List.flatMap_cons, h4]
+      rw [ih rest (by simp only [List.length_cons] at h; omega) hr]
+      have : (n + 1) * 4 = n * 4 + 4 := by omega
+      rw [this]
+      simp [List.take_succ_cons]
+
+theorem u32s_lt (n : Nat) (bs : Bytes) (hb : AllB bs) : ∀ x ∈ u32s n bs, x < 4294967296 := by
+  induction n generalizing bs with
+  | zero => simp [u32s]
+  | succ n ih =>
+      match bs, hb with
+      | [], _ => simp [u32s]
+      | [_], _ => simp [u32s]
+      | [_, _], _ => simp [u32s]
+      | [_, _, _], _ => simp [u32s]
+      | a :: b :: c :: d :: rest, hb =>
+          intro x hx
+          simp only [u32s, List.mem_cons] at hx
+          rcases hx with hx | hx
+          · subst hx
+            have := ofBe_lt [a, b, c, d] (fun x hx => hb x (by
+              simp only [List.mem_cons, List.not_mem_nil, or_false] at hx
+              rcases hx with h | h | h | h <;> simp [h]))
+            simpa using this
+          · exact ih rest hb.tail.tail.tail.tail x hx
+
+/-! ## AS_PATH walks -/
+
+def encSeg (s : Nat × List Nat) : Bytes := [s.1 % 256, s.2.length % 256] ++ s.2.flatMap (beN 4)
+
+theorem asPathToSegs_spec (bs : Bytes) (h : segsOk bs = true) (hb : AllB bs) :
+    ∃ segs, asPathToSegs bs = .ok segs ∧ segs.flatMap encSeg = bs ∧
+      ∀ s ∈ segs, (1 ≤ s.1 ∧ s.1 ≤ 4) ∧ s.2.length ≤ 255 := by
+  fun_induction segsOk bs with
+  | case1 => exact ⟨[], by simp [asPathToSegs], rfl, by simp⟩
+  | case2 => simp at h
+  | case3 t l rest hc ih =>
+      obtain ⟨ht1, ht4, hl⟩ := hc
+      have hrest : AllB rest := hb.tail.tail
+      have hl256 : l < 256 := hb.tail.head
+      have ht256 : t < 256 := hb.head
+      obtain ⟨segs, h1, h2, h3⟩ := ih h (hrest.drop _)
+      refine ⟨(t, u32s l rest) :: segs, ?_, ?_, ?_⟩
+      · rw [asPathToSegs]; simp [hl, h1, Out.map]
+      · simp only [List.flatMap_cons, encSeg, h2]
+        rw [u32s_length l rest hl, u32s_flatMap l rest hl hrest]
+        rw [Nat.mod_eq_of_lt ht256, Nat.mod_eq_of_lt hl256]
+        simp [List.take_append_drop]
+      · intro s hs
+        rcases List.mem_cons.mp hs with rfl | hs
+        · refine ⟨⟨ht1, ht4⟩, ?_⟩
+          simp only [u32s_length l rest hl]; omega
+        · exact h3 s hs
+  | case4 t l rest hc => simp at h
+
+theorem segments_eq (bs : Bytes) : Spec.segments bs = segsOk bs := by
+  fun_induction segsOk bs with
+  | case1 => simp [Spec.segments]
+  | case2 => simp [Spec.segments]
+  | case3 t l rest hc ih => rw [Spec.segments]; simp [hc, ih]
+  | case4 t l rest hc => rw [Spec.segments]; simp [hc]
+
+theorem segmentsNonEmpty_eq (bs : Bytes) : Spec.segmentsNonEmpty bs = segs4Ok bs := by
+  fun_induction segs4Ok bs with
+  | case1 => simp [Spec.segmentsNonEmpty]
+  | case2 => simp [Spec.segmentsNonEmpty]
+  | case3 t l rest hc ih => rw [Spec.segmentsNonEmpty]; simp [hc, ih]
+  | case4 t l rest hc => rw [Spec.segmentsNonEmpty]; simp [hc]
+
+theorem flatMap_beN4_length (ns : List Nat) : (ns.flatMap (beN 4)).length = ns.length * 4 := by
+  induction ns with
+  | nil => rfl
+  | cons n ns ih => simp [List.flatMap_cons, beN_length, ih]; omega
+
+theorem flatMap_beN_allB (k : Nat) (ns : List Nat) : AllB (ns.flatMap (beN k)) := by
+  intro b hb
+  rcases List.mem_flatMap.mp hb with ⟨n, _, hn⟩
+  exact beN_lt k n b hn
+
+theorem segsOk_enc (segs : List (Nat × List Nat))
+    (h : ∀ s ∈ segs, (1 ≤ s.1 ∧ s.1 ≤ 4) ∧ s.2.length ≤ 255) : segsOk (segs.flatMap encSeg) = true := by
+  induction segs with
+  | nil => simp [segsOk]
+  | cons s tl ih =>
+      obtain ⟨⟨h1, h4⟩, hl⟩ := h s (by simp)
+      have ht : s.1 % 256 = s.1 := Nat.mod_eq_of_lt (by omega)
+      have hlen : s.2.length % 256 = s.2.length := Nat.mod_eq_of_lt (by omega)
+      simp only [List.flatMap_cons, encSeg, ht, hlen, List.cons_append, List.nil_append, List.append_assoc]
+      rw [segsOk]
+      have hp : (s.2.flatMap (beN 4)).length = s.2.length * 4 := flatMap_beN4_length _
+      have hle : s.2.length * 4 ≤ (s.2.flatMap (beN 4) ++ tl.flatMap encSeg).length := by
+        rw [List.length_append, hp]; omega
+      simp only [h1, h4, hle, and_self, if_true]
+      rw [← hp, List.drop_left]
+      exact ih (fun s hs => h s (List.mem_cons_of_mem _ hs))
+
+theorem encSeg_allB (segs : List (Nat × List Nat)) : AllB (segs.flatMap encSeg) := by
+  intro b hb
+  rcases List.mem_flatMap.mp hb with ⟨s, _, hs⟩
+  simp only [encSeg, List.cons_append, List.nil_append, List.mem_cons] at hs
+  rcases hs with rfl | rfl | hs
+  · exact Nat.mod_lt _ (by omega)
+  · exact Nat.mod_lt _ (by omega)
+  · exact flatMap_beN_allB 4 _ b hs
+
+/-- consumers of a well-formed AS_PATH value never hit an `unwrap`/`unreachable!` -/
+theorem asPathLengthLoop_ok (bs : Bytes) (acc : Nat) (h : segsOk bs = true) :
+    ∃ n, asPathLengthLoop bs acc = .ok n := by
+  fun_induction segsOk bs generalizing acc with
+  | case1 => exact ⟨acc, by simp [asPathLengthLoop]⟩
+  | case2 => simp at h
+  | case3 t l rest hc ih =>
+      obtain ⟨ht1, ht4, _⟩ := hc
+      rw [asPathLengthLoop]
+      have : t = 1 ∨ t = 2 ∨ t = 3 ∨ t = 4 := by omega
+      rcases this with rfl | rfl | rfl | rfl <;> simp <;> exact ih _ h
+  | case4 t l rest hc => simp at h
+
+theorem asPathOriginLoop_ok (bs : Bytes) (st : Nat × Nat × Nat) (h : segsOk bs = true) :
+    ∃ r, asPathOriginLoop bs st = .ok r := by
+  fun_induction segsOk bs generalizing st with
+  | case1 => exact ⟨st, by simp [asPathOriginLoop]⟩
+  | case2 => simp at h
+  | case3 t l rest hc ih =>
+      obtain ⟨_, _, hl⟩ := hc
+      rw [asPathOriginLoop]
+      simp only [hl, if_true]
+      exact ih _ h
+  | case4 t l rest hc => simp at h
+
+theorem downgrade2_ok (bs : Bytes) (h : segsOk bs = true) : ∃ r, downgrade2 bs = .ok r := by
+  fun_induction segsOk bs with
+  | case1 => exact ⟨[], by simp [downgrade2]⟩
+  | case2 => simp at h
+  | case3 t l rest hc ih =>
+      obtain ⟨_, _, hl⟩ := hc
+      obtain ⟨r, hr⟩ := ih h
+      rw [downgrade2]
+      simp [hl, hr, Out.map]
+  | case4 t l rest hc => simp at h
+
+theorem hasWide_ok (bs : Bytes) (h : segsOk bs = true) : ∃ r, hasWide bs = .ok r := by
+  fun_induction segsOk bs with
+  | case1 => exact ⟨false, by simp [hasWide]⟩
+  | case2 => simp at h
+  | case3 t l rest hc ih =>
+      obtain ⟨_, _, hl⟩ := hc
+      obtain ⟨r, hr⟩ := ih h
+      rw [hasWide]
+      simp only [hl, if_true, hr]
+      split <;> simp
+  | case4 t l rest hc => simp at h
+
+theorem stripConfed_ok (bs : Bytes) (h : segsOk bs = true) : ∃ r, stripConfed bs = .ok r := by
+  fun_induction segsOk bs with
+  | case1 => exact ⟨[], by simp [stripConfed]⟩
+  | case2 => simp at h
+  | case3 t l rest hc ih =>
+      obtain ⟨_, _, hl⟩ := hc
+      obtain ⟨r, hr⟩ := ih h
+      rw [stripConfed]
+      simp only [hl, if_true, hr]
+      split <;> simp [Out.map]
+  | case4 t l rest hc => simp at h
+
+/-! ## the `Out` monad -/
+
+@[simp] theorem Out.bind_ok' {α β} (a : α) (f : α → Out β) : (Out.ok a >>= f) = f a := rfl
+@[simp] theorem Out.bind_err' {α β} (f : α → Out β) : ((Out.err : Out α) >>= f) = Out.err := rfl
+@[simp] theorem Out.bind_panic' {α β} (f : α → Out β) : ((Out.panic : Out α) >>= f) = Out.panic := rfl
+@[simp] theorem Out.pure_eq {α} (a : α) : (pure a : Out α) = Out.ok a := rfl
+@[simp] theorem Out.map_ok {α β} (f : α → β) (a : α) : Out.map f (Out.ok a) = Out.ok (f a) := rfl
+@[simp] theorem Out.void_ok {α} (a : α) : (Out.ok a).void = Out.ok () := rfl
+@[simp] theorem unwrapO_some {α} (a : α) : unwrapO (some a) = Out.ok a := rfl
+@[simp] theorem unwrapO_none {α} : unwrapO (none : Option α) = Out.panic := rfl
+@[simp] theorem okOr_some {α} (a : α) : okOr (some a) = Out.ok a := rfl
+@[simp] theorem okOr_none {α} : okOr (none : Option α) = Out.err := rfl
+@[simp] theorem okOrErr_eq {α} (o : Option α) : okOrErr o = okOr o := rfl
+
+/-! ## more chunk lemmas -/
+
+theorem chunksN_flatten (k n : Nat) (bs : Bytes) : (chunksN k n bs).flatten = bs.take (n * k) := by
+  induction n generalizing bs with
+  | zero => simp [chunksN]
+  | succ n ih =>
+      simp only [chunksN, List.flatten_cons, ih]
+      have : (n + 1) * k = k + n * k := by rw [Nat.add_mul]; omega
+      rw [this, List.take_add]
+
+theorem chunksN_length (k n : Nat) (bs : Bytes) (h : n * k ≤ bs.length) :
+    ∀ c ∈ chunksN k n bs, c.length = k := by
+  induction n generalizing bs with
+  | zero => simp [chunksN]
+  | succ n ih =>
+      intro c hc
+      have hk : (n + 1) * k = n * k + k := by rw [Nat.add_mul]; omega
+      simp only [chunksN, List.mem_cons] at hc
+      rcases hc with rfl | hc
+      · simp only [List.length_take]; omega
+      · exact ih (bs.drop k) (by simp only [List.length_drop]; omega) c hc
+
+theorem mapM_map_some {α β} (f : α → β) (g : β → Option α) (l : List α)
+    (h : ∀ c ∈ l, g (f c) = some c) : (l.map f).mapM g = some l := by
+  induction l with
+  | nil => rfl
+  | cons x xs ih =>
+      have hx := h x (by simp)
+      have hxs := ih (fun c hc => h c (List.mem_cons_of_mem _ hc))
+      simp [List.mapM_cons, hx, hxs]
+
+theorem take_full {α} (l : List α) (n : Nat) (h : l.length ≤ n) : l.take n = l :=
+  List.take_of_length_le h
+
+theorem triples_flatMap (n : Nat) (bs : Bytes) (h : n * 12 ≤ bs.length) (hb : AllB bs) :
+    (triples n bs).flatMap (fun t => beN 4 t.1 ++ beN 4 t.2.1 ++ beN 4 t.2.2) = bs.take (n * 12) := by
+  induction n generalizing bs with
+  | zero => simp [triples]
+  | succ n ih =>
+      have hlen : 12 ≤ bs.length := by omega
+      simp only [triples, List.flatMap_cons]
+      rw [ih (bs.drop 12) (by simp only [List.length_drop]; omega) (hb.drop _)]
+      have e1 : beN 4 (ofBe (bs.take 4)) = bs.take 4 :=
+        beN_ofBe' 4 _ (by simp only [List.length_take]; omega) (hb.take _)
+      have e2 : beN 4 (ofBe ((bs.drop 4).take 4)) = (bs.drop 4).take 4 :=
+        beN_ofBe' 4 _ (by simp only [List.length_take, List.length_drop]; omega) ((hb.drop _).take _)
+      have e3 : beN 4 (ofBe ((bs.drop 8).take 4)) = (bs.drop 8).take 4 :=
+        beN_ofBe' 4 _ (by simp only [List.length_take, List.length_drop]; omega) ((hb.drop _).take _)
+      rw [e1, e2, e3]
+      have hk : (n + 1) * 12 = 4 + (4 + (4 + n * 12)) := by omega
+      rw [hk, List.take_add, List.take_add, List.take_add]
+      simp [List.drop_drop, List.append_assoc]
+
+/-! ## round trip `attr_from_api (attr_to_api a) = a` -/
+
+@[simp] theorem need_eq_none (c : Bool) (s : String) (k : Option String) :
+    need c s k = none ↔ c = true ∧ k = none := by
+  unfold need; cases c <;> simp
+
+/-- flags are exactly the RFC flags of the attribute's code (recognised codes only) -/
+def flagsCanon (a : Attribute) : Prop := ∀ f, canonicalFlags a.code = some f → a.flags = f
+
+/-- `attr_from_api (attr_to_api a) = Ok(a)` for the code with repairs `fx` -/
+def RT (fx : Fixes) (a : Attribute) : Prop := ∃ x, toApi fx a = .ok x ∧ fromApi fx x = .ok a
+
+theorem any_false_of_forall {α} (l : List α) (p : α → Bool) (h : ∀ x ∈ l, p x = false) : l.any p = false := by
+  simp only [List.any_eq_false]
+  intro x hx; simp [h x hx]
+
+theorem specBytes_allB {bs : Bytes} (h : Spec.isBytes bs = true) : AllB bs := by
+  intro b hb
+  simp only [Spec.isBytes, List.all_eq_true, decide_eq_true_eq] at h
+  exact h b hb
+
+theorem rt_val (code flags v : Nat) (hcode : code = 1 ∨ code = 4 ∨ code = 5 ∨ code = 9)
+    (hwf : WF ⟨code, flags, .val v⟩) (hc : flagsCanon ⟨code, flags, .val v⟩) :
+    RT current ⟨code, flags, .val v⟩ := by
+  rcases hcode with rfl | rfl | rfl | rfl
+  · have hf : flags = 0x40 := hc 0x40 (by simp [canonicalFlags])
+    subst hf
+    simp [WF, wfClause, classOf, valClause] at hwf
+    refine ⟨.origin v, by simp [toApi, Attribute.value], ?_⟩
+    simp [fromApi, current, newWithValue, canonicalFlags]; omega
+  · have hf : flags = 0x80 := hc 0x80 (by simp [canonicalFlags])
+    subst hf
+    exact ⟨.med v, by simp [toApi, Attribute.value], by simp [fromApi, newWithValue, canonicalFlags]⟩
+  · have hf : flags = 0x40 := hc 0x40 (by simp [canonicalFlags])
+    subst hf
+    exact ⟨.localPref v, by simp [toApi, Attribute.value], by simp [fromApi, newWithValue, canonicalFlags]⟩
+  · have hf : flags = 0x80 := hc 0x80 (by simp [canonicalFlags])
+    subst hf
+    exact ⟨.originatorId (.ip4 v), by simp [toApi, Attribute.value],
+      by simp [fromApi, AStr.parse4, newWithValue, canonicalFlags]⟩
+
+theorem rt_aspath (flags : Nat) (b : Bytes) (hwf : WF ⟨2, flags, .bin b⟩)
+    (hc : flagsCanon ⟨2, flags, .bin b⟩) : RT current ⟨2, flags, .bin b⟩ := by
+  have hf : flags = 0x40 := hc 0x40 (by simp [canonicalFlags])
+  subst hf
+  simp [WF, wfClause, classOf, binClause] at hwf
+  obtain ⟨_, hbytes, hseg⟩ := hwf
+  rw [segments_eq] at hseg
+  obtain ⟨segs, h1, h2, h3⟩ := asPathToSegs_spec b hseg (specBytes_allB hbytes)
+  refine ⟨.asPath segs, by simp [toApi, Attribute.binary, h1], ?_⟩
+  have hany : segs.any (fun s => !(decide (1 ≤ s.1 ∧ s.1 ≤ 4)) || decide (s.2.length > 255)) = false := by
+    apply any_false_of_forall
+    intro s hs
+    obtain ⟨⟨a1, a4⟩, al⟩ := h3 s hs
+    simp [a1, a4]; omega
+  simp only [fromApi, current, hany]
+  rw [show (segs.flatMap fun s => [s.1 % 256, s.2.length % 256] ++ s.2.flatMap (beN 4)) = b from h2]
+  simp [newWithBin, canonicalFlags]
+
+theorem rt_atomic (flags : Nat) (b : Bytes) (hwf : WF ⟨6, flags, .bin b⟩)
+    (hc : flagsCanon ⟨6, flags, .bin b⟩) : RT current ⟨6, flags, .bin b⟩ := by
+  have hf : flags = 0x40 := hc 0x40 (by simp [canonicalFlags])
+  subst hf
+  simp [WF, wfClause, classOf, binClause] at hwf
+  obtain ⟨_, _, hlen⟩ := hwf
+  have : b = [] := List.eq_nil_of_length_eq_zero hlen
+  subst this
+  exact ⟨.atomicAggregate, by simp [toApi], by simp [fromApi, newWithBin, canonicalFlags]⟩
+
+theorem rt_aggregator (flags : Nat) (b : Bytes) (hwf : WF ⟨7, flags, .bin b⟩)
+    (hc : flagsCanon ⟨7, flags, .bin b⟩) : RT current ⟨7, flags, .bin b⟩ := by
+  have hf : flags = 0xC0 := hc 0xC0 (by simp [canonicalFlags])
+  subst hf
+  simp [WF, wfClause, classOf, binClause] at hwf
+  obtain ⟨_, hbytes, hlen⟩ := hwf
+  have hb := specBytes_allB hbytes
+  refine ⟨.aggregator (ofBe (b.take 4)) (.ip4 (ofBe (b.drop 4))), by simp [toApi, Attribute.binary, hlen], ?_⟩
+  have e1 : beN 4 (ofBe (b.take 4)) = b.take 4 :=
+    beN_ofBe' 4 _ (by simp only [List.length_take]; omega) (hb.take _)
+  have e2 : beN 4 (ofBe (b.drop 4)) = b.drop 4 :=
+    beN_ofBe' 4 _ (by simp only [List.length_drop]; omega) (hb.drop _)
+  simp [fromApi, AStr.parse4, e1, e2, newWithBin, canonicalFlags]
+
+theorem rt_u32list (code flags : Nat) (b : Bytes) (hcode : code = 8 ∨ code = 10)
+    (hwf : WF ⟨code, flags, .bin b⟩) (hc : flagsCanon ⟨code, flags, .bin b⟩) :
+    RT current ⟨code, flags, .bin b⟩ := by
+  rcases hcode with rfl | rfl
+  · have hf : flags = 0xC0 := hc 0xC0 (by simp [canonicalFlags])
+    subst hf
+    simp [WF, wfClause, classOf, binClause] at hwf
+    obtain ⟨_, hbytes, hlen⟩ := hwf
+    have hb := specBytes_allB hbytes
+    refine ⟨.communities (u32s (b.length / 4) b), by simp [toApi, Attribute.binary], ?_⟩
+    have h4 : b.length / 4 * 4 = b.length := by omega
+    have := u32s_flatMap (b.length / 4) b (by omega) hb
+    rw [h4, List.take_length] at this
+    simp [fromApi, this, newWithBin, canonicalFlags]
+  · have hf : flags = 0x80 := hc 0x80 (by simp [canonicalFlags])
+    subst hf
+    simp [WF, wfClause, classOf, binClause] at hwf
+    obtain ⟨_, hbytes, hlen⟩ := hwf
+    have hb := specBytes_allB hbytes
+    refine ⟨.clusterList ((u32s (b.length / 4) b).map .ip4), by simp [toApi, Attribute.binary], ?_⟩
+    have h4 : b.length / 4 * 4 = b.length := by omega
+    have := u32s_flatMap (b.length / 4) b (by omega) hb
+    rw [h4, List.take_length] at this
+    have hm : ((u32s (b.length / 4) b).map AStr.ip4).mapM AStr.parse4 = some (u32s (b.length / 4) b) :=
+      mapM_map_some _ _ _ (fun c _ => rfl)
+    simp [fromApi, hm, this, newWithBin, canonicalFlags]
+
+theorem rt_large (flags : Nat) (b : Bytes) (hwf : WF ⟨32, flags, .bin b⟩)
+    (hc : flagsCanon ⟨32, flags, .bin b⟩) : RT current ⟨32, flags, .bin b⟩ := by
+  have hf : flags = 0xC0 := hc 0xC0 (by simp [canonicalFlags])
+  subst hf
+  simp [WF, wfClause, classOf, binClause] at hwf
+  obtain ⟨_, hbytes, hlen⟩ := hwf
+  have hb := specBytes_allB hbytes
+  refine ⟨.largeCommunities (triples (b.length / 12) b), by simp [toApi, Attribute.binary], ?_⟩
+  have h12 : b.length / 12 * 12 = b.length := by omega
+  have := triples_flatMap (b.length / 12) b (by omega) hb
+  rw [h12, List.take_length] at this
+  simp only [fromApi]
+  rw [this]
+  simp [newWithBin, canonicalFlags]
+
+theorem writeExtcom_show (c : Bytes) (hlen : c.length = 8) :
+    writeExtcom (showExtcom current c) = some c := by
+  unfold showExtcom
+  simp only [current, if_true]
+  split
+  · assumption
+  · match c, hlen with
+    | ty :: rest, hlen => simp [writeExtcom, hlen]
+
+theorem rt_extcom (flags : Nat) (b : Bytes) (hwf : WF ⟨16, flags, .bin b⟩)
+    (hc : flagsCanon ⟨16, flags, .bin b⟩) : RT current ⟨16, flags, .bin b⟩ := by
+  have hf : flags = 0xC0 := hc 0xC0 (by simp [canonicalFlags])
+  subst hf
+  simp [WF, wfClause, classOf, binClause] at hwf
+  obtain ⟨_, hbytes, hlen⟩ := hwf
+  refine ⟨.extCommunities ((chunksN 8 (b.length / 8) b).map (showExtcom current)),
+    by simp [toApi, Attribute.binary], ?_⟩
+  have h8 : b.length / 8 * 8 = b.length := by omega
+  have hm : ((chunksN 8 (b.length / 8) b).map (showExtcom current)).mapM writeExtcom
+      = some (chunksN 8 (b.length / 8) b) :=
+    mapM_map_some _ _ _ (fun c hcm => writeExtcom_show c (chunksN_length 8 _ b (by omega) c hcm))
+  have hfl := chunksN_flatten 8 (b.length / 8) b
+  rw [h8, List.take_length] at hfl
+  simp [fromApi, hm, hfl, newWithBin, canonicalFlags]
 
 end Rbgp.Api
